@@ -34,6 +34,13 @@
 (*        now sits at that index                                              *)
 (*   "stale_term_ae_response"        _handle_append_entries_response accepts  *)
 (*        responses whose term is lower than the leader's current term        *)
+(* Plausible regressions kept as deviations (never part of the code so far):  *)
+(*   "commit_counts_old_term_entry"  _try_advance_commit takes the quorum-th  *)
+(*        highest replicated index; the current-term rule only guards the     *)
+(*        leader's LAST entry, not the entry being committed                  *)
+(*   "vote_tally_survives_retry"     _start_election adds self to the tally   *)
+(*        instead of resetting it (cleared only by _step_down): a candidate   *)
+(*        that retries keeps the votes of its previous term                   *)
 EXTENDS Naturals, Sequences, FiniteSets, TLC
 
 CONSTANTS Nodes,  \* node ids: 1..N for traces and replayed behaviours, model values under SYMMETRY
@@ -93,7 +100,8 @@ BecomeLeader(s, self) ==
 \* _handle_election_timeout + _start_election
 OnTimeout(s, self) ==
     IF s.role = "L" THEN R([s EXCEPT !.et = 1], <<>>, <<>>)
-    ELSE LET s1 == [s EXCEPT !.role = "C", !.term = s.term + 1, !.voted = self, !.votes = {self},
+    ELSE LET s1 == [s EXCEPT !.role = "C", !.term = s.term + 1, !.voted = self,
+                             !.votes = IF Has("vote_tally_survives_retry") THEN s.votes \cup {self} ELSE {self},
                              !.et = 1]
              F(p) == [type |-> "RV", src |-> self, dst |-> p, term |-> s1.term,
                       lli |-> Len(s1.log), llt |-> LastTerm(s1.log)]
@@ -174,6 +182,10 @@ OnAE(s, self, m) ==
 
 \* _try_advance_commit
 TryAdvance(s, self) ==
+    IF Has("commit_counts_old_term_entry")
+    THEN LET Q == { n \in 0..Len(s.log) : 1 + Cardinality({ p \in Nodes \ {self} : s.mi[p] >= n }) >= Quorum }
+         IN IF LastTerm(s.log) # s.term \/ SetMax(Q) <= s.ci THEN R(s, <<>>, <<>>) ELSE Commit(s, SetMax(Q))
+    ELSE
     LET C == { n \in (s.ci + 1)..Len(s.log) :
                  /\ s.log[n].t = s.term
                  /\ 1 + Cardinality({ p \in Nodes \ {self} : s.mi[p] >= n }) >= Quorum }
